@@ -1,7 +1,7 @@
 """C08 - Rendering is total and allocation-free on display-scale inputs  (metadata + implementation-side search)"""
 from common import *
 
-CLAIMED = True
+CLAIMED = False  # until theorem parts are merged
 LEVEL = 'proof'
 LEVEL_TEXT = 'TODO'
 LEVEL_NOTE = 'TODO'
